@@ -25,7 +25,7 @@ RULE = (
     'seconds - offset by integer arithmetic without pytz. (b) end to end: a '
     'uniform series rendered in a DST zone is loaded and grid_time must '
     'equal the chosen instants. (c) malformed input: an interior rain row '
-    'removed / displaced / duplicated with an offset; an ET row missing for '
+    'removed / displaced / duplicated with an offset / repeated at the same instant with another value; an ET row missing for '
     'one grid step or stamped late inside its step; a second load into a populated file: load must raise and '
     'a re-load must leave every table unchanged. Non-trivial: zone with a '
     'transition within a day of the instant or an LMT-era instant (a); each '
